@@ -137,6 +137,19 @@ def make_decoder_machine(ctx):
         def decode(self, i):
             self.do(("decode", i % len(self.cfg["pages"])))
 
+        @precondition(lambda self: self.cfg is not None)
+        @rule(thr=st.sampled_from([None, 0.2, 0.6, 0.95, 1.5, float("inf")]))
+        def set_threshold(self, thr):
+            self.do(("set_threshold", thr))
+
+        def op_set_threshold(self, thr):
+            """the confidence threshold is a plain attribute of the live decoder (tools change it between pages): from now on the
+            decoder must behave like a fresh one built with that threshold"""
+            self.decoder.line_confidence_threshold = thr
+            self.cfg = dict(self.cfg, threshold=thr)
+            self.fresh = {}
+            self.ctx.event("threshold_changed_on_the_live_decoder")
+
         def op_init(self, cfg):
             self.cfg = cfg
             self.pages = make_pages(cfg["pages"])
